@@ -1,12 +1,15 @@
 ------------------------------ MODULE As4Trace ------------------------------
 (* Validates executions of the real conversion code (harness/c14/c14_test.go) against As4.tla.
-     Reset                      start of a trace, kind "rt" or "pair"
+     Reset                      start of a trace, kind "rt", "pair" or "grp"
      Down  p, agg, obs          UpdatePathAttrs2ByteAs + UpdatePathAggregator2ByteAs on the UPDATE
                                 carrying AS_PATH p / AGGREGATOR agg, serialised as for a 2-octet
                                 peer and parsed back: obs = what that peer is sent
      Up    as2, as4, g2, g4, obs  UpdatePathAttrs4ByteAs + UpdatePathAggregator4ByteAs on a received
                                 UPDATE with these four attributes: obs = what the RIB gets.
                                 In an "rt" trace the inputs of Up are the observation of Down.
+     Shared obs                 ("grp" only) the attribute list the messages of the group shared,
+                                after all of them were converted.  A "grp" trace is Down Up Down Up
+                                ... Shared: k messages of one attribute group, converted in turn.
    The C14_* invariants compare the recorded observations with the PROPERTY layer of As4.tla
    (RFC 6793 text); Conf_* compare them with the MECHANISM layer (informational).
    The invariants about reconstruction come in two input classes, AS_PATH without / with
@@ -14,8 +17,8 @@
    finding be identified exactly. *)
 EXTENDS As4, TraceUtil
 
-VARIABLES l, ph, p0, g0, dn, in, up
-tvars == <<l, ph, p0, g0, dn, in, up>>
+VARIABLES l, ph, kind, p0, g0, pre, dn, in, up, sh
+tvars == <<l, ph, kind, p0, g0, pre, dn, in, up, sh>>
 
 NoView == [aspath |-> <<>>, as4 |-> NoAs4, agg |-> NoAgg, agg4 |-> NoAgg, err |-> "", via |-> "wire",
            naspath |-> 1, enc |-> 0, aggoct |-> 0, otheratt |-> 0]
@@ -28,7 +31,8 @@ NoIn   == [as2 |-> <<>>, as4 |-> NoAs4, g2 |-> NoAgg, g4 |-> NoAgg]
 StartLines == {i \in 1..TLen : Trace[i].ev = "Reset"}
 ASSUME TLCSet(3, {})
 
-TraceInit == l \in StartLines /\ ph = "idle" /\ p0 = <<>> /\ g0 = NoAgg /\ dn = NoView /\ in = NoIn /\ up = NoView
+TraceInit == /\ l \in StartLines /\ ph = "idle" /\ kind = "none" /\ p0 = <<>> /\ g0 = NoAgg
+             /\ pre = NoView /\ dn = NoView /\ in = NoIn /\ up = NoView /\ sh = NoView
 
 IsEvent(e) == l <= TLen /\ Trace[l].ev = e /\ l' = l + 1
 
@@ -39,15 +43,27 @@ View(o) == [aspath |-> o.aspath, as4 |-> o.as4, agg |-> o.agg, agg4 |-> o.agg4, 
 ShapeKey(p) == [i \in 1..Len(p) |-> <<p[i].t, Len(p[i].as), Cardinality({j \in 1..Len(p[i].as) : Wide(p[i].as[j])})>>]
 
 TReset == /\ IsEvent("Reset") /\ ph = "idle"
-          /\ ph' = (IF Trace[l].kind = "rt" THEN "rt0" ELSE "pair0")
+          /\ ph' = (IF Trace[l].kind \in {"rt", "grp"} THEN "rt0" ELSE "pair0")
+          /\ kind' = Trace[l].kind
           /\ p0' = <<>> /\ g0' = NoAgg /\ dn' = NoView /\ in' = NoIn /\ up' = NoView
+          /\ pre' = NoView /\ sh' = NoView
 
 (* the harness must hand the code RFC-valid inputs; anything else is a machinery error *)
-TDown == /\ IsEvent("Down") /\ ph = "rt0"
+(* In a "grp" trace several UPDATE messages that share one attribute list are converted one after
+   the other: a further Down (same original path and aggregator) follows the Up of the previous
+   message.  pre = what the message carried when its conversion started. *)
+TDown == /\ IsEvent("Down") /\ (ph = "rt0" \/ (kind = "grp" /\ ph = "rtup"))
          /\ LET e == Trace[l] IN
               /\ Assert(ValidPath(e.p) /\ SegsOK(e.p), "harness built an invalid AS_PATH")
-              /\ p0' = e.p /\ g0' = e.agg /\ dn' = View(e.obs)
-         /\ ph' = "down" /\ UNCHANGED <<in, up>>
+              /\ ph = "rtup" => (e.p = p0 /\ e.agg = g0)
+              /\ p0' = e.p /\ g0' = e.agg /\ dn' = View(e.obs) /\ pre' = View(e.pre)
+              /\ NoteIf(ph = "rtup", <<"grp", ShapeKey(e.p), e.agg.as>>)
+         /\ ph' = "down" /\ UNCHANGED <<kind, in, up, sh>>
+
+(* the shared attribute list (via "packer": the attributes of the route itself) after all messages *)
+TShared == /\ IsEvent("Shared") /\ kind = "grp" /\ ph = "rtup"
+           /\ sh' = View(Trace[l].obs)
+           /\ ph' = "shared" /\ UNCHANGED <<kind, p0, g0, pre, dn, in, up>>
 
 TUp == /\ IsEvent("Up") /\ ph \in {"down", "pair0"}
        /\ LET e == Trace[l] IN
@@ -60,9 +76,9 @@ TUp == /\ IsEvent("Up") /\ ph \in {"down", "pair0"}
             /\ NoteIf(e.as4.p /\ NonConfed(e.as4.segs) # <<>>,
                       <<ph, ShapeKey(e.as2), ShapeKey(e.as4.segs)>>)
        /\ ph' = (IF ph = "down" THEN "rtup" ELSE "pairup")
-       /\ UNCHANGED <<p0, g0, dn>>
+       /\ UNCHANGED <<kind, p0, g0, pre, dn, sh>>
 
-TraceNext == TReset \/ TDown \/ TUp
+TraceNext == TReset \/ TDown \/ TUp \/ TShared
 TraceSpec == TraceInit /\ [][TraceNext]_tvars
 
 TraceConstraint == IF ph # "idle" THEN TLCSet(3, TLCGet(3) \cup {l}) ELSE TRUE
@@ -94,6 +110,15 @@ RoundTripHolds == up.err = "" /\ up.naspath = 1 /\ RoundTripOK(p0, up.aspath)
 C14_RoundTrip       == (ph = "rtup" /\ ~HasConfed(p0)) => RoundTripHolds
 C14_RoundTripConfed == (ph = "rtup" /\ HasConfed(p0)) => RoundTripHolds
 C14_RoundTripAggregator == ph = "rtup" => (up.agg = g0 /\ (g0.p => up.aggoct = 4))
+
+(* several messages share one attribute list: sending one of them to a 2-octet peer must leave the
+   list as it was, or the next message of the group (and the route itself) is converted from an
+   already converted form.  The round trip of EVERY message is demanded by the invariants above,
+   which judge each Down/Up pair of a "grp" trace. *)
+IntactView(w) == /\ w.aspath = p0 /\ w.naspath = 1 /\ w.enc \in {0, 4} /\ ~w.as4.p
+                 /\ w.agg = g0 /\ (g0.p => w.aggoct = 4) /\ ~w.agg4.p
+C14_GroupInputIntact    == AfterDown => IntactView(pre)
+C14_SharedListUnchanged == ph = "shared" => IntactView(sh)
 
 C14_NoEmptyOrOverlong == AfterUp => SegsOK(up.aspath)
 
